@@ -27,7 +27,7 @@ def getSliceObj (s : Obj) (start stop step : Option Int) : Except Err Obj :=
 
 /-- `BitStore.__iter__`: `for i in range(len(self)): yield self.getindex(i)`. -/
 def iter (s : Obj) : List (Except Err Bool) :=
-  (List.range s.bits.length).map fun i => getItem s (i : Int)
+  (List.range s.bits.length).map fun (i : Nat) => getItem s (i : Int)
 
 def truth (s : Obj) : Bool := s.bits.length != 0
 
